@@ -157,6 +157,9 @@ var Kinds = []Kind{
 	// String() / HTML() promoted from an embedded interface that is nil: printing the value calls them
 	{"embeds_nil_stringer", func() interface{} { return struct{ fmt.Stringer }{} }},
 	{"embeds_nil_htmler", func() interface{} { return struct{ plush.HTMLer }{} }},
+	// Interface() / Next() promoted from an embedded interface that is nil
+	{"embeds_nil_interfaceable", func() interface{} { return struct{ c04Interfaceable }{} }},
+	{"embeds_nil_iterator", func() interface{} { return struct{ plush.Iterator }{} }},
 	// what pathFor looks for: ToPath / ToParam, Slug / ID fields (also nil, also promoted from a nil pointer)
 	{"pathable", func() interface{} { return pathableFix{"/px/1"} }},
 	{"pathable_nilptr", func() interface{} { return (*pathableFix)(nil) }},
@@ -169,6 +172,8 @@ var Kinds = []Kind{
 type nullableFix struct{ v interface{} }
 
 func (n nullableFix) Interface() interface{} { return n.v }
+
+type c04Interfaceable interface{ Interface() interface{} }
 
 type pathableFix struct{ p string }
 
